@@ -13,6 +13,12 @@ src = json.load(open(os.path.join(HERE, 'tables', 'panic_audit.src.json')))
 F = facts.load(verbose=False)
 ctx = Ctx('x', F)
 out = {}
+# keep every existing entry (line-free keys stay valid across edits elsewhere); the source
+# file only adds or overrides entries for sites it can locate on the current tree
+_old = os.path.join(HERE, 'tables', 'panic_audit.json')
+if os.path.exists(_old):
+    for e in json.load(open(_old)):
+        out[e['key']] = e
 missing = set(src.keys())
 for prop in sys.argv[1:]:
     mod = importlib.import_module('rules.' + prop)
